@@ -45,6 +45,15 @@ def garden_bin(profile="debug"):
     return p
 
 
+def die_with_parent():
+    """preexec_fn: a helper process must not outlive a killed check (`garden json` spins on a closed stdin)."""
+    try:
+        import ctypes
+        ctypes.CDLL("libc.so.6").prctl(1, 9)     # PR_SET_PDEATHSIG, SIGKILL
+    except Exception:
+        pass
+
+
 MIN_RUN_TIMEOUT = float(os.environ.get("VERIF_NATIVE_MIN_TIMEOUT", "45")) + 15   # a loaded machine must not turn a slow start into a verdict
 
 
@@ -106,7 +115,7 @@ class JsonSession:
         if env_extra:
             env.update(env_extra)
         self.p = subprocess.Popen([g, "json"], stdin=subprocess.PIPE, stdout=subprocess.PIPE,
-                                  stderr=subprocess.PIPE, env=env)
+                                  stderr=subprocess.PIPE, env=env, preexec_fn=die_with_parent)
         self.buf = b""
         self.ready = self._read_response(MIN_TIMEOUT + 15)
 
